@@ -81,7 +81,7 @@ func rulesC15(c *Ctx) {
 			rv := pg.VertexOf(r)
 			guards := pg.GuardsAt(rv)
 			okRes := hasAtom(guards, func(a Atom) bool {
-				x, y, op, ok := binaryCmp(a.E)
+				x, y, op, ok := cmpOn(a.E, func(e ast.Expr) bool { return prm.FieldPath(e) == "ProtectedResourceMetadata.Resource" })
 				return ok && op == token.NEQ && !a.Val && prm.FieldPath(x) == "ProtectedResourceMetadata.Resource" && len(prm.NonRecvParams()) >= 3 && prm.ObjOf(y) == types.Object(prm.NonRecvParams()[2])
 			})
 			c.Check(okRes, "PRM:resource-matches#"+itoa(i), prm, r, "protected-resource metadata is returned only if its resource equals the requested resource URL (guards: %s)", atomsString(guards))
@@ -154,11 +154,16 @@ func rulesC15(c *Ctx) {
 				if !isB || b.Op != token.LAND {
 					return false
 				}
-				lo, _, op1, ok1 := binaryCmp(b.X)
-				_, hi, op2, ok2 := binaryCmp(b.Y)
-				l, isL := asmF.ConstInt(lo)
-				h, isH := asmF.ConstInt(hi)
-				return ok1 && ok2 && op1 == token.LEQ && op2 == token.LSS && isL && isH && l == 400 && h == 500
+				// (constants are on the right after normalisation; the conjuncts may come in either order)
+				bounds := map[token.Token]int64{}
+				for _, conj := range []ast.Expr{b.X, b.Y} {
+					if x, y, op, ok := binaryCmp(conj); ok && strings.HasSuffix(asmF.FieldPath(x), ".StatusCode") {
+						if v, isC := asmF.ConstInt(y); isC {
+							bounds[op] = v
+						}
+					}
+				}
+				return len(bounds) == 2 && bounds[token.GEQ] == 400 && bounds[token.LSS] == 500
 			})
 			c.Check(ok4, "ASM:no-metadata-only-for-4xx#"+itoa(i), asmF, r, "'no metadata' (nil, nil) is reported only for a 4xx answer (guards: %s)", atomsString(guards))
 		}
@@ -332,7 +337,7 @@ func rulesC15(c *Ctx) {
 				if vf.ObjOf(e) == types.Object(sup) {
 					return s.sup
 				}
-				if x, y, op, ok := binaryCmp(e); ok && vf.ObjOf(x) == types.Object(iss) {
+				if x, y, op, ok := cmpOn(e, func(z ast.Expr) bool { return vf.ObjOf(z) == types.Object(iss) }); ok && vf.ObjOf(x) == types.Object(iss) {
 					if str, isC := vf.ConstString(y); isC && str == "" {
 						if op == token.EQL {
 							return s.empty
@@ -374,7 +379,7 @@ func rulesC15(c *Ctx) {
 		for i, r := range successReturns(gc) {
 			guards := gcg.GuardsAt(gcg.VertexOf(r))
 			c.Check(hasAtom(guards, func(a Atom) bool {
-				x, y, op, ok := binaryCmp(a.E)
+				x, y, op, ok := cmpOn(a.E, func(e ast.Expr) bool { return strings.HasSuffix(gc.FieldPath(e), ".State") })
 				return ok && op == token.NEQ && !a.Val && strings.HasSuffix(gc.FieldPath(x), ".State") && gc.ObjOf(y) == stateVar
 			}), "getAuthorizationCode:state-verified#"+itoa(i), gc, r, "a code is handed on only if the returned state equals the generated one (guards: %s)", atomsString(guards))
 		}
